@@ -351,6 +351,7 @@ func init() {
 		Profiles: []sim.Profile{
 			{Name: "cas", Weight: 4, Fn: c08Profile(false)},
 			{Name: "ac", Weight: 1, Fn: c08Profile(true)},
+			{Name: "cas-atomics", Weight: 2, Fn: withAtomicYields(c08Profile(false))},
 			{Name: "configured-blackbox", Weight: 2, Fn: c08Configured},
 		},
 		Components: map[string][]string{
